@@ -102,12 +102,75 @@ theorem flat_roundtrip (vs : List Value) (hvs : ∀ v ∈ vs, v.WF) :
         d.filler = .ok () d' ∧ d'.pos = d'.buf.length ∧ d'.used = 0 :=
   flat_roundtrip_from Enc.new Enc.inv_new vs hvs
 
+/-- `flat::decode(&flat::encode(&v)) = Ok(v)` for the top-level functions of `mod.rs` -/
+theorem encode_decode_top (v : Value) (hv : v.WF) :
+    ∃ bytes d, encodeTop v = some bytes ∧ decodeTop v.kind bytes = .ok v d ∧ d.pos = bytes.length ∧ d.used = 0 := by
+  obtain ⟨e, he, d, d', hd, hf, hp, hu⟩ := flat_roundtrip [v] (by simpa using hv)
+  simp only [Enc.seq] at he
+  cases hev : Enc.new.value v with
+  | ok e1 =>
+    rw [hev] at he
+    simp only [ERes.ok.injEq] at he
+    subst he
+    simp only [List.map_cons, List.map_nil, Dec.seq] at hd
+    cases hdv : (Dec.new e1.filler.buf).value v.kind with
+    | ok v' d1 =>
+      rw [hdv] at hd
+      simp only [Res.ok.injEq, List.cons.injEq, and_true] at hd
+      obtain ⟨rfl, rfl⟩ := hd
+      have hbuf : d'.buf = e1.filler.buf := by
+        have h1 := Dec.value_safe (Dec.new e1.filler.buf) (Dec.inv_new _) v'.kind
+        rw [hdv] at h1
+        have h2 := Dec.filler_safe d1 h1.2.1
+        rw [hf] at h2
+        rw [h2.1, h1.1]; rfl
+      refine ⟨e1.filler.buf, d', by simp [encodeTop, hev], by simp [decodeTop, hdv, hf], by rw [hp, hbuf], hu⟩
+    | err e d1 => rw [hdv] at hd; simp at hd
+    | panic => rw [hdv] at hd; simp at hd
+  | err => rw [hev] at he; simp at he
+  | panic => rw [hev] at he; simp at he
+
 /-- the encoder never fails or panics on well-formed values (needed for the statement above not to
     be vacuous on the Rust side: `Result`s are `Ok`, no shift traps) -/
 theorem enc_total (e0 : Enc) (h0 : e0.Inv) (vs : List Value) (hvs : ∀ v ∈ vs, v.WF) :
     ∃ e, e0.seq vs = .ok e ∧ e.Inv :=
   let ⟨e, he, hi, _⟩ := Enc.seq_ext e0 h0 vs hvs
   ⟨e, he, hi⟩
+
+/-- **lists with any element codec.** If the element encoder appends `spec a` and the element decoder
+    reads `spec a` back (for the items of the list), then `encode_list_with` / `decode_list_with`
+    round-trip the list at any bit offset, in front of any following bits. -/
+theorem list_roundtrip_generic {α : Type} (f : Enc → α → Option Enc) (g : Dec → Res α) (spec : α → List Bool)
+    (items : List α)
+    (hf : ∀ a ∈ items, ∀ e : Enc, e.Inv → ∃ e', f e a = some e' ∧ e'.Inv ∧ e'.written = e.written ++ spec a)
+    (hg : ∀ a ∈ items, ∀ (d : Dec) (rest : List Bool), d.used < 8 → d.rem = spec a ++ rest →
+      ∃ d', g d = .ok a d' ∧ d'.buf = d.buf ∧ d'.used < 8 ∧ d'.cursor = d.cursor + (spec a).length)
+    (e : Enc) (he : e.Inv) :
+    ∃ e', Enc.list f e items = some e' ∧ e'.Inv ∧ e'.written = e.written ++ listBits spec items ∧
+      ∀ (d : Dec) (rest : List Bool), d.used < 8 → d.rem = listBits spec items ++ rest →
+        ∃ d', Dec.list g d = .ok items d' ∧ d'.buf = d.buf ∧ d'.used < 8 ∧
+          d'.cursor = d.cursor + (listBits spec items).length := by
+  obtain ⟨e', h1, h2, h3⟩ := Enc.list_ext f spec items hf e he
+  exact ⟨e', h1, h2, h3, fun d rest hu hr => Dec.list_reads g spec items hg d rest hu hr⟩
+
+/-- **wire format.** The buffer produced for `vs` is, bit for bit, the concatenation of the specified
+    encodings followed by the filler — independent of `used_bits` / `current_byte` bookkeeping. -/
+theorem enc_wire_format (vs : List Value) (hvs : ∀ v ∈ vs, v.WF) :
+    ∃ e, Enc.new.seq vs = .ok e ∧
+      bitsOf e.filler.buf = specSeq 0 vs ++ fillerBits ((specSeq 0 vs).length % 8) := by
+  obtain ⟨e, he, hinv, hw⟩ := Enc.seq_ext Enc.new Enc.inv_new vs hvs
+  obtain ⟨⟨_, hfw⟩, hfu, _⟩ := Enc.filler_ext e hinv
+  refine ⟨e, he, ?_⟩
+  have h0 : Enc.new.written = [] := rfl
+  have : e.filler.written = bitsOf e.filler.buf := by simp [Enc.written, hfu]
+  rw [← this, hfw, hw, h0]
+  simp only [List.nil_append, List.length_nil]
+  have hl := Enc.written_length e hinv
+  rw [hw, h0] at hl
+  simp only [List.nil_append, List.length_nil] at hl
+  have := hinv.1
+  congr 2
+  omega
 
 /-! ## Non-vacuity -/
 
